@@ -76,6 +76,7 @@ def run_mc(tier, result, errors):
             if missing:
                 raise vk.Infra("vacuous model check (%s): never took a successful %s" % (kind, missing))
             return kind, {"distinct": r["distinct"], "generated": r["generated"], "depth": r["depth"], "witnessed_actions": sorted(seen),
+                          "tlc_run_in_this_invocation": not r.get("reused", False),
                           "constants": {k: (sorted(v) if isinstance(v, set) else v) for k, v in mc_constants(kind, tier).items()}}
         for kind, r in vk.pmap(one, KINDS, 3):
             out[kind] = r
